@@ -95,7 +95,14 @@ class DefInterp(object):
                 ch = True
             fl[k] = m
         sl = {}
+        for k in b[4]:
+            if k[-1] == "*" and k not in a[4]:
+                sl[k] = (0, 0)
+                ch = True
         for k, (sz, m) in a[4].items():
+            if k[-1] == "*":
+                sl[k] = (0, 0)
+                continue
             o = b[4].get(k)
             if o is None or o[0] != sz:
                 ch = True
@@ -172,9 +179,11 @@ class DefInterp(object):
         if key[0] == "sp" and key[-1] >= 0:
             return vmask(size)          # caller's frame: stack arguments / return address
         base, off = key[:-1], key[-1]
+        if base + ("*",) in st[4]:
+            return vmask(size)          # an indexed store into this frame may have written the slot
         m = 0
         for kk, (sz, mm) in st[4].items():
-            if kk[:-1] != base:
+            if kk[:-1] != base or kk[-1] == "*":
                 continue
             o = kk[-1]
             lo, hi = max(o, off), min(o + sz, off + size)
@@ -189,11 +198,13 @@ class DefInterp(object):
         if v[0] not in ("sp", "fr"):
             return False
         if indexed or size is None:
-            return True     # unknown slot: leave fixed slots as they are (conservative for definedness = keep undefined)
+            key = absint.Interp.slot_key(v)
+            st[4][key[:-1] + ("*",)] = (0, 0)      # from now on loads from this frame count as defined (R20.2 is about fixed slots)
+            return True
         key = absint.Interp.slot_key(v)
         base, off = key[:-1], key[-1]
         for kk in list(st[4]):
-            if kk[:-1] == base:
+            if kk[:-1] == base and kk[-1] != "*":
                 o, (sz, mm) = kk[-1], st[4][kk]
                 if off <= o and o + sz <= off + size:
                     del st[4][kk]
@@ -225,6 +236,8 @@ class DefInterp(object):
             st = self.copy(states[b])
             self.block(b, st, False)
             for s in f.succ.get(b, []):
+                if (b, s) in getattr(self.p1, "dead_edges", ()):
+                    continue
                 if s not in states:
                     states[s] = self.copy(st)
                     if s not in inw:
@@ -399,6 +412,13 @@ class DefInterp(object):
                 mask = self.vector_result(i, d, n, [x for x in srcs if not x[3]], memmask, msize)
             else:
                 mask = self.vector_result(i, d, n, srcs, memmask, msize)
+                # a lane-wise operation keeps "undefined only outside mask k" confined to the same bytes
+                tags = {tg for (r, m, nn, t, tg) in srcs if tg is not None}
+                if len(tags) == 1 and mask != vmask(n) and (op.startswith(LANEWISE) or (op[1:] if vex else op).startswith(LANEWISE)):
+                    if all(m == vmask(nn) for (r, m, nn, t, tg) in srcs if tg is None and x86.vec_of(r)) and (memmask is None or memmask == vmask(msize or 8)):
+                        tg0 = next(iter(tags))
+                        if tg0 == (tg0[0], self.kver_of(kreg, tg0[0])):
+                            tag = tg0
             self.vset(vec, d, mask, vex, tag)
         # ---- opmask destinations
         for d in kdefs:
@@ -493,6 +513,10 @@ class DefInterp(object):
         imm = None
         if i.ops and i.ops[-1][0] == "i":
             imm = i.ops[-1][1] & 0xFF
+        if memmask is not None and "{1to" in i.text:
+            # embedded broadcast: one element replicated over the whole vector
+            memmask = full if memmask == vmask(msize or 4) else 0
+            msize = n
         allsrc = [m for (r, m, nn, t) in vs] + ([self.widen(memmask, msize, n)] if memmask is not None else [])
         # plain moves / loads / broadcasts
         if base.startswith(("MOVDQ", "MOVAP", "MOVUP", "LDDQU", "MOVNT")) or op.startswith(MOVE_OPS):
@@ -591,9 +615,16 @@ class DefInterp(object):
             w = n
             return (vs[-1][1] >> (imm * w)) & full
         if base.startswith(("INSERTI", "INSERTF")) and imm is not None and len(allsrc) >= 2:
-            w = 16 if "128" in base or "x4" in base and "64x4" not in base else 32
+            w = 32 if ("64x4" in base or "32x8" in base or "256" in base) else 16
             old, new = allsrc[0], allsrc[1]
             return ((old & ~(vmask(w) << (imm * w))) | ((new & vmask(w)) << (imm * w))) & full
+        if base.startswith(("ALIGNQ", "ALIGND")) and imm is not None and len(allsrc) >= 2:
+            esz = 8 if base.startswith("ALIGNQ") else 4
+            a, b = allsrc[0], allsrc[1]          # result = (a:b) >> imm elements, across the whole vector
+            cat = ((a & full) << n) | (b & full)
+            return (cat >> (esz * (imm % (n // esz)))) & full
+        if base.startswith(("EXTRACTI32x4", "EXTRACTI64x2", "EXTRACTF32x4", "EXTRACTF64x2", "EXTRACTI128", "EXTRACTF128")) and imm is not None and vs:
+            return (vs[-1][1] >> (imm * 16)) & vmask(16) | (full & ~vmask(16))
         if base.startswith(("PERM2I128", "PERM2F128")) and imm is not None and len(allsrc) >= 2:
             a, b = allsrc[0], allsrc[1]
             out = 0
@@ -609,6 +640,14 @@ class DefInterp(object):
         # lane-wise computations
         if op.startswith(LANEWISE) or base.startswith(LANEWISE):
             m = full
+            cb = self.const_mem_bytes(i, msize) if memmask is not None else None
+            if cb is not None and base.startswith(("PAND", "ANDP")) and not base.startswith(("PANDN", "ANDNP")) and vs:
+                # AND with a constant: bytes where the constant is zero are defined (zero) whatever the register holds
+                zero_bytes = 0
+                for k, bb in enumerate(cb[:n]):
+                    if bb == 0:
+                        zero_bytes |= 1 << k
+                return ((vs[0][1] & full) | zero_bytes) & full
             for x in allsrc:
                 m &= x | (full & ~vmask(min(n, 64)))
             lane = 1
@@ -627,6 +666,22 @@ class DefInterp(object):
         # default: everything or nothing
         ok = all(x & full == full for x in [mm for (r, mm, nn, t) in vs if nn >= n] + [mm | (full & ~vmask(nn)) for (r, mm, nn, t) in vs if nn < n and (mm == vmask(nn))] ) and all((mm == vmask(nn)) for (r, mm, nn, t) in vs) and (memmask is None or memmask == vmask(msize or 8)) and all(m == FULL8 for (r, m) in gs)
         return full if ok else 0
+
+    def const_mem_bytes(self, i, msize):
+        """Bytes of a rip-relative constant operand (static data never written by the library), else None."""
+        if not i.rel or i.mem < 0:
+            return None
+        m = i.memop()
+        if not m or m[0] != "RIP":
+            return None
+        o = self.f.obj
+        try:
+            tsec, taddr, tname = i.rel_target(o)
+        except Exception:
+            return None
+        if tsec < 0:
+            return None
+        return o.initial_bytes(tsec, taddr, msize or 16)
 
     @staticmethod
     def widen(memmask, msize, n):
